@@ -506,4 +506,59 @@ class ConcurrentBlocks(SubCheck):
         io_selftest(env)
 
 
-SUBCHECKS = [CacheBlocks(), FanoutBlocks(), PersistentBlocks(), ConcurrentBlocks()]
+class ProcessBlocks(ConcurrentBlocks):
+    """The block runs in one OS process, the other clients in their own processes."""
+
+    name = 'concurrent_blocks_processes'
+
+    def examples(self, tier):
+        return 30 if tier == 'quick' else 1500
+
+    def execute(self, case, env):
+        import diskcache
+
+        from ..procsched import run_scheduled_procs
+
+        def setup(path):
+            base = diskcache.Cache(path, timeout=0, disk_min_file_size=64)
+            for k, spec in case['init'].items():
+                base.set(k, c05.mk(spec))
+            return base
+
+        def make_client(path, shared, i):
+            if case['mode'] == 'shared' and i >= 0:
+                shared._sql
+                return shared  # the inherited object, used from the forked child
+            c = diskcache.Cache(path, timeout=0)
+            c._sql
+            return c
+
+        calls, run = run_scheduled_procs(env, case['progs'], case['schedule'], setup, make_client, do_op, 'C06', final_ops=c05.FINAL_OPS[:4])
+        if run.limit_hit:
+            return {'nontrivial': False, 'classes': ['step-limit']}
+        mark_interleaved(calls, run.trace)
+        init_state = tuple(sorted(case['init'].items()))
+        lin = [c for c in calls if c.op[0] != 'list']
+        for c in lin:
+            if c.result[0] == 'exc' and c.result[1] not in ('KeyError',):
+                raise Violation('C06/concurrent/unexpected-exception/%s' % c.result[1], 'call %r\n%s' % (c, fmt(calls)))
+        block = [c for c in lin if c.op[0] == 'block'][0]
+
+        def skippable(c):
+            if c.op[0] in ('get', 'getitem') and c05.is_miss(c):
+                k = c05.op_key(c.op)
+                for o in lin:
+                    if o is c or o.client == c.client or not overlaps(o, c):
+                        continue
+                    inner = o.op[1] if o.op[0] == 'block' else [o.op]
+                    if any(i[0] in c05.WRITES and c05.op_key(i) == k for i in inner):
+                        return True
+            return False
+
+        if linearize(lin, init_state, model_apply, lambda s: s, skippable) is None:
+            raise Violation('C06/concurrent/not-atomic/processes', 'no order with the block as ONE atomic call explains these results (initial %r):\n%s' % (init_state, fmt(calls)))
+        foreign = [c for c in lin if c.client not in (block.client, -1) and overlaps(c, block) and (c.interleaved or block.interleaved)]
+        return {'nontrivial': bool(foreign), 'classes': ['processes', 'aborting' if block.op[2] else 'committing']}
+
+
+SUBCHECKS = [CacheBlocks(), FanoutBlocks(), PersistentBlocks(), ConcurrentBlocks(), ProcessBlocks()]
